@@ -1,8 +1,12 @@
 //! Per-property recording commands, one module per property (registered here).
 use crate::Args;
 
+pub mod c18;
+
 pub fn dispatch(_cmd: &str, _a: &Args) -> bool {
     match _cmd {
+        "c18-decode" => c18::decode_cmd(_a),
+        "c18-child" => c18::child(_a),
         _ => return false,
     }
     #[allow(unreachable_code)]
